@@ -18,8 +18,7 @@ Definition ring := list (option nat).
 Definition diverges : N := 1%N.
 
 (** l.290-298: [usedSlots += n] in Go's wrapping 64-bit int *)
-Definition used_slots (counts : list Z) : Z :=
-  fold_left (fun u n => wrap64 (u + n)) counts 0%Z.
+Definition used_slots (counts : list Z) : Z := total_slots counts.
 
 (** l.301: [targets := make([]*Target, usedSlots)].  makeslice panics for a negative
     length and for more than maxAlloc/8 = 2^45 pointers (linux/amd64). *)
@@ -109,24 +108,37 @@ Definition ring_status (counts : list Z) : outcome unit :=
   else if (used <? p)%Z then Err diverges
   else Ok tt.
 
-(** the whole of weighTargets: effective weights and the ring the pickers use.
-    [order] = what sort.Sort does to the slots. *)
-Definition route_ring (A : arith) (order : list (nat * Z) -> list (nat * Z)) (fixed : list (num A))
+(** the whole of weighTargets BEFORE commit 290c777 (no fallback); kept for the refutations *)
+Definition route_ring_unrepaired (A : arith) (order : list (nat * Z) -> list (nat * Z)) (fixed : list (num A))
   : outcome (list (num A) * ring) :=
-  let ws := weigh A fixed in
+  let ws := weigh_unrepaired A fixed in
   if Nat.eqb (n_fixed A fixed) 0 then
-    Ok (ws, map Some (seq 0 (length fixed)))              (* l.232-238: r.wTargets = r.Targets *)
+    Ok (ws, map Some (seq 0 (length fixed)))
   else
     let counts := map (slot_count A) ws in
     do r <- ring_of_counts (order (indexed counts)) counts;
     Ok (ws, r).
 
+(** the whole of weighTargets (since 290c777): effective weights and the ring the pickers use.
+    [order] = what sort.Sort does to the slots.  No fixed weight, an unusable weight or
+    [usedSlots <= 0]: weighEvenly, [r.wTargets = r.Targets]; otherwise the fill loop. *)
+Definition route_ring (A : arith) (order : list (nat * Z) -> list (nat * Z)) (fixed : list (num A))
+  : outcome (list (num A) * ring) :=
+  let ws := weigh A fixed in
+  if uses_fill A fixed then
+    let counts := map (slot_count A) ws in
+    do r <- ring_of_counts (order (indexed counts)) counts;
+    Ok (ws, r)
+  else Ok (ws, map Some (seq 0 (length fixed))).
+
 (** the crash status of an outcome, and of weighTargets as a whole (no ring built) *)
 Definition status_of {X} (o : outcome X) : outcome unit :=
   match o with Ok _ => Ok tt | Err k => Err k | Panic => Panic end.
-Definition route_status (A : arith) (fixed : list (num A)) : outcome unit :=
+Definition route_status_unrepaired (A : arith) (fixed : list (num A)) : outcome unit :=
   if Nat.eqb (n_fixed A fixed) 0 then Ok tt
-  else ring_status (map (slot_count A) (weigh A fixed)).
+  else ring_status (map (slot_count A) (weigh_unrepaired A fixed)).
+Definition route_status (A : arith) (fixed : list (num A)) : outcome unit :=
+  if uses_fill A fixed then ring_status (map (slot_count A) (weigh A fixed)) else Ok tt.
 
 (** number of slots of the ring holding target [t] / holding nil *)
 Definition slot_eqb (a b : option nat) : bool :=
